@@ -246,3 +246,26 @@ def queries():
                             unwind=34, backend="kissat", tier="thorough", timeout=900,
                             desc="br_rsa_%s_public and br_rsa_%s_private are mutual inverses for every x < n, toy key n = 13*5, e = 5, real big-integer arithmetic incl. modpow; BR_MAX_RSA_SIZE=64%s" % (pre, pre, "" if al is None else "; private work-area alignment case %d fixed through the hook" % al)))
     return qs
+
+
+# ---- added by the main session after the seeded change C10c (overflow of the binary-GCD halving step in
+# br_rsa_i31_compute_privexp for e >= 2^31) escaped: recomputed private exponent == e^-1 mod (p-1)(q-1).
+_c10_queries = queries
+def queries():
+    from verif import Q
+    qs = _c10_queries()
+    units31 = ["src/rsa/rsa_i31_privexp.c"] + ["src/int/i31_%s.c" % x for x in ("decode", "mulacc", "bitlen", "encode", "muladd", "add", "sub")] + ["src/int/i32_div32.c"]
+    units15 = ["src/rsa/rsa_i15_privexp.c"] + ["src/int/i15_%s.c" % x for x in ("decode", "mulacc", "bitlen", "encode", "muladd", "add", "sub")] + ["src/int/i32_div32.c"]
+    exps = [("3", "3u"), ("17", "17u"), ("65537", "65537u"), ("7fffffff", "0x7FFFFFFFu"), ("80000001", "0x80000001u"), ("9e3779b1", "0x9E3779B1u"),
+            ("c0000001", "0xC0000001u"), ("fffffffb", "0xFFFFFFFBu"), ("ffffffff", "0xFFFFFFFFu")]
+    import math
+    PHI = (0x8000000017 - 1) * (0xC00000004B - 1)
+    for impl, units in ((31, units31), (15, units15)):
+        for (nm, lit) in exps:
+            refused = ["-DEXPECT_REFUSED=1"] if math.gcd(int(lit.rstrip("u"), 0), PHI) != 1 else []
+            for (zp, zq) in ((0, 0), (1, 0)) if nm in ("65537", "c0000001") else ((0, 0),):
+                qs.append(Q("privexp-i%d-e%s-z%d%d" % (impl, nm, zp, zq), "C10_privexp.c", units=units,
+                            defs=["-DIMPL=%d" % impl, "-DECONST=%s" % lit, "-DZP=%d" % zp, "-DZQ=%d" % zq, "-DBR_MAX_RSA_SIZE=128"] + refused, unwind=70, timeout=400,
+                            checks=False, flags=["--no-standard-checks"], tier="quick" if nm in ("65537", "c0000001", "fffffffb") and (zp, zq) == (0, 0) and impl == 31 else "thorough",
+                            desc="br_rsa_i%d_compute_privexp: d == e^-1 mod (p-1)(q-1), d < phi, for e = %s and two concrete 40-bit factors (= 3 mod 4); all inputs concrete (a symbolic e has no verdict in 280 s); functional claim only (cbmc's pointer/bounds instrumentation is off for these queries: 150k extra conditions)" % (impl, lit)))
+    return qs
